@@ -126,3 +126,28 @@ Definition r_inv (s : rstate) : Prop :=
   /\ (forall p c, alookup p (r_cache s) = Some c ->
         f_mtime c <= r_clock s
         /\ forall f, alookup p (r_files s) = Some f -> f_mtime c = f_mtime f -> f_deps c = f_deps f).
+
+(* ---- the `-L dependency=` scan of RustInputsPackager::write_inputs: which crate a library file belongs to ----
+   file name `lib<crate>-<extra filename>.rlib`: `name.rsplitn(2, '-')` gives libname = everything before the LAST '-';
+   the crate name is libname with the prefix "lib" removed ONCE (`&libname[RLIB_PREFIX.len()..]`, guarded by
+   starts_with); the file is packaged iff that crate name is among the names `rustc -Z ls` printed for the externs. *)
+Definition lib_prefix : list N := [108; 105; 98].    (* "lib" *)
+
+Definition crate_of_libname (l : list N) : option (list N) :=
+  match l with
+  | 108 :: 105 :: 98 :: r => Some r
+  | _ => None
+  end.
+
+(* what `trim_start_matches("lib")` would do instead: remove the prefix as often as it occurs *)
+Fixpoint trim_all_lib (fuel : nat) (l : list N) : list N :=
+  match fuel with
+  | O => l
+  | S f => match l with 108 :: 105 :: 98 :: r => trim_all_lib f r | _ => l end
+  end.
+
+Definition lib_packaged (dep_names : list name) (libname : list N) : bool :=
+  match crate_of_libname libname with
+  | Some c => existsb (name_eqb c) dep_names
+  | None => false
+  end.
